@@ -1,8 +1,10 @@
 import ObiVerif.Model.Command
 import ObiVerif.Driver.Util
-/-! line protocol for C05: `run <scenario> seed= nrec= cpu= batch= gmp= rep= | <kind> <hex output of record 0 alone> …` -/
+/-! line protocol for C05:
+`run|race <scenario> seed= nrec= cpu= batch= gmp= rep= [in=] [aff=] | <kind> <data of record 0 alone> … | <kind> …`
+one section per output stream of the command; the result is `ok` followed by one token per stream. -/
 namespace ObiVerif.Driver.C05
-open ObiVerif.Command ObiVerif.Iter ObiVerif.Driver
+open ObiVerif.Command ObiVerif.Iter ObiVerif.Writer ObiVerif.Driver
 
 def splitLines (b : List UInt8) : List (List UInt8) :=
   let (cur, acc) := b.foldl (fun (st : List UInt8 × List (List UInt8)) c =>
@@ -15,41 +17,114 @@ def numAfterComma (l : List UInt8) : Nat :=
 
 def showNat (n : Nat) : List UInt8 := (toString n).toUTF8.toList
 
+/-- injective coding of a byte string as a natural number; the numeric order is (length, bytes) -/
+def keyCode (k : List UInt8) : Nat := k.foldl (fun n c => n * 256 + c.toNat) 1
+
+def keyBytes : Nat → Nat → List UInt8 → List UInt8
+  | 0, _, acc => acc
+  | fuel+1, n, acc => if n ≤ 1 then acc else keyBytes fuel (n / 256) (UInt8.ofNat (n % 256) :: acc)
+
+def bytesOf (s : String) : List UInt8 := s.toUTF8.toList
+
+/-- a canonical summary line `path value\n` → (coded path, value) -/
+def summaryLine (l : List UInt8) : Nat × Nat :=
+  let l := l.filter (· != 10)
+  let k := l.takeWhile (· != 32)
+  let v := (l.dropWhile (· != 32)).foldl (fun n c => if 48 ≤ c && c ≤ 57 then n * 10 + (c.toNat - 48) else n) 0
+  (keyCode k, v)
+
+/-- keys of the printed document that are not counters but sizes of the maps of counters -/
+def derivedKeys : List (List UInt8) :=
+  [bytesOf "annotations/scalar_attributes", bytesOf "annotations/map_attributes",
+   bytesOf "annotations/vector_attributes", bytesOf "samples/sample_count"]
+
+def isSuffix (s l : List UInt8) : Bool := s.reverse.isPrefixOf l.reverse
+
+/-- what `ISummary` prints besides the counters themselves: the number of keys of each map -/
+def addDerived (m : Counters) : Counters :=
+  let keys := m.map fun kv => keyBytes (kv.1 + 1) kv.1 []
+  let cnt (pre : String) := (keys.filter fun k => (bytesOf pre).isPrefixOf k).length
+  let nsc := cnt "annotations/keys/scalar/"
+  let nmp := cnt "annotations/keys/map/"
+  let nvc := cnt "annotations/keys/vector/"
+  let nsm := (keys.filter fun k => (bytesOf "samples/sample_stats/").isPrefixOf k && isSuffix (bytesOf "/reads") k).length
+  let m := if nsc + nmp + nvc > 0 then
+      addKey (keyCode (bytesOf "annotations/vector_attributes")) nvc
+        (addKey (keyCode (bytesOf "annotations/map_attributes")) nmp
+          (addKey (keyCode (bytesOf "annotations/scalar_attributes")) nsc m)) else m
+  if nsm > 0 then addKey (keyCode (bytesOf "samples/sample_count")) nsm m else m
+
+def showCounters (m : Counters) : List UInt8 :=
+  (m.map fun kv => keyBytes (kv.1 + 1) kv.1 [] ++ [32] ++ showNat kv.2 ++ [10]).flatten
+
+/-- one output stream: `none` = a per-record run failed -/
+def stream (kind : String) (toks : List String) : Option String :=
+  if toks.any (fun t => t.startsWith "21" || t.startsWith "!") then none else
+  let n := toks.length
+  -- one reader batch holding every record, one worker, one writer arrival: by `command_deterministic`
+  -- (and its companions for the other kinds) every other partition / schedule gives the same bytes
+  let arr : List Batch := [(0, List.range n)]
+  if kind = "dispatch" then
+    -- a token is `-` (no file) or `hex(name):hex(content)`
+    let parsed := toks.map fun t => match t.splitOn ":" with
+      | [a, b] => match unhex a, unhex b with
+        | some x, some y => some (keyCode x, x, y)
+        | _, _ => none
+      | _ => none
+    let cls (i : Rec) : Nat := match parsed.getD i none with | some (c, _, _) => c | none => 0
+    let fmt (i : Rec) : Command.Bytes := match parsed.getD i none with | some (_, _, y) => y | none => []
+    -- the classes met, in increasing order of their code
+    let classes : Counters := parsed.foldl (fun m p => match p with | some (c, _, _) => addKey c 1 m | none => m) []
+    if classes.isEmpty then some "-" else
+    some (",".intercalate (classes.map fun kv =>
+      hex (keyBytes (kv.1 + 1) kv.1 []) ++ ":" ++ hex (distributeFile cls 2 fmt kv.1 arr id)))
+  else
+  match toks.mapM unhex with
+  | none => none
+  | some singles =>
+    let single (i : Rec) : Command.Bytes := singles.getD i []
+    if kind = "records" then some (hex (commandOutput single arr))
+    else if kind = "csv" then
+      -- every single output is `header line` + `row`
+      let header : Command.Bytes := match singles with
+        | [] => []
+        | s :: _ => (splitLines s).headD []
+      let row (i : Rec) : Command.Bytes := ((splitLines (single i)).drop 1).flatten
+      some (hex (commandCsv header row arr))
+    else if kind = "json" then
+      -- every single output is `[\n` object `\n]\n` (`[\n\n]\n` when the record is filtered out)
+      let body (i : Rec) : Command.Bytes := ((single i).drop 2).take ((single i).length - 5)
+      let kept := (List.range n).filter fun i => !(body i).isEmpty
+      some (hex (commandJson body [(0, kept)]))
+    else if kind = "count" then
+      let cnt (i : Rec) : Nat × Nat × Nat :=
+        match splitLines (single i) with
+        | [_, a, b, c] => (numAfterComma a, numAfterComma b, numAfterComma c)
+        | _ => (0, 0, 0)
+      let (v, r, s) := countOutput cnt arr
+      let txt : List UInt8 := "entites,n\n".toUTF8.toList ++ "variants,".toUTF8.toList ++ showNat v ++ [10]
+        ++ "reads,".toUTF8.toList ++ showNat r ++ [10] ++ "symbols,".toUTF8.toList ++ showNat s ++ [10]
+      some (hex txt)
+    else if kind = "summary" then
+      -- the counters of a record = the counters printed for that record alone, the map sizes excepted
+      let cnt (i : Rec) : Counters :=
+        ((splitLines (single i)).map summaryLine).filter fun kv => !(derivedKeys.map keyCode).contains kv.1
+      let init : Counters := mergeCounters []
+        [(keyCode (bytesOf "count/reads"), 0), (keyCode (bytesOf "count/variants"), 0), (keyCode (bytesOf "count/total_length"), 0)]
+      -- two workers, the second one taking nothing: by `summary_deterministic` any other sharing gives the same
+      some (hex (showCounters (addDerived (summaryOutput cnt init [[(0, List.range n)], []]))))
+    else none
+
 def run (line : String) : String :=
   match line.splitOn " | " with
-  | [_, data] =>
-    match words data with
-    | ["opaque"] => "ok"
-    | kind :: hs =>
-      match hs.mapM unhex with
-      | none => "bad-op"
-      | some singles =>
-        if singles.any (fun s => s.head? == some 33) then "bad-single" else
-        let n := singles.length
-        let single (i : Rec) : Command.Bytes := singles.getD i []
-        -- one reader batch holding every record, one worker, one writer arrival: by `command_deterministic`
-        -- every other partition / schedule gives the same bytes
-        let arr : List Batch := [(0, List.range n)]
-        if kind = "records" then
-          s!"ok {hex (commandOutput single arr)}"
-        else if kind = "csv" then
-          -- every single output is `header line` + `row`
-          let header : Command.Bytes := match singles with
-            | [] => []
-            | s :: _ => (splitLines s).headD []
-          let row (i : Rec) : Command.Bytes := ((splitLines (single i)).drop 1).flatten
-          s!"ok {hex (header ++ commandOutput row arr)}"
-        else if kind = "count" then
-          let cnt (i : Rec) : Nat × Nat × Nat :=
-            match splitLines (single i) with
-            | [_, a, b, c] => (numAfterComma a, numAfterComma b, numAfterComma c)
-            | _ => (0, 0, 0)
-          let (v, r, s) := countOutput cnt arr
-          let txt : List UInt8 := "entites,n\n".toUTF8.toList ++ "variants,".toUTF8.toList ++ showNat v ++ [10]
-            ++ "reads,".toUTF8.toList ++ showNat r ++ [10] ++ "symbols,".toUTF8.toList ++ showNat s ++ [10]
-          s!"ok {hex txt}"
-        else "bad-op"
-    | _ => "bad-op"
-  | _ => "bad-op"
+  | [] => "bad-op"
+  | [_] => "bad-op"
+  | _ :: sections =>
+    if sections = ["opaque"] then "ok" else
+    let outs := sections.map fun sec => match words sec with
+      | kind :: toks => stream kind toks
+      | [] => none
+    if outs.any Option.isNone then "bad-single"
+    else s!"ok {" ".intercalate (outs.map fun o => o.getD "")}"
 
 end ObiVerif.Driver.C05
